@@ -417,6 +417,9 @@ func init() {
 				meta.Histogram[fmt.Sprintf("resp_ok=%v", o.Resp[0][2])]++
 			}
 		}
+		if replay == "" {
+			validationHandlerOracles(meta)
+		}
 		meta.NCases = len(cases)
 		meta.Shard = 1500
 		meta.Files = writeCases(outDir, "From KV Require Import Model.Base Model.Middleware Exec.C14Exec.", "c14case", "judge", terms, meta.Shard)
